@@ -481,6 +481,8 @@ def _get_OP_SWAP_type_args(
     args = []
     symbols_to_advance += 2
     vals = symbols[:2]
+    yert(len(vals) == 2,
+        f'{opname} - missing argument(s) - symbol {symbol_index}')
 
     for val in vals:
         yert(val[0].lower() in ('d', 'x'),
@@ -513,6 +515,8 @@ def _get_OP_CHECK_MULTISIG_args(
     args = []
     symbols_to_advance += 3
     vals = symbols[:3]
+    yert(len(vals) == 3,
+        f'{opname} - missing argument(s) - symbol {symbol_index}')
 
     for val in vals:
         yert(val[0].lower() in ('d', 'x'),
